@@ -155,15 +155,47 @@ Definition delete_slots_ok (slots : list wevent) : bool :=
                      | _ => true
                      end) slots.
 
+(* the cases the theorems speak about, decidably: the events of the resolved writes are strictly increasing in
+   revision and below 2^64. A generated KLw case that is not valid counts as a disagreement (c06_check). The
+   unknown-outcome runs (KLf) are outside these theorems (Proofs/C06Faults.v treats them). *)
+Fixpoint ev_sortedb (l : list event) : bool :=
+  match l with
+  | a :: (b :: _) as t => (e_rev a <? e_rev b) && ev_sortedb t
+  | _ => true
+  end.
+Definition c06_validb (c : c06_case) : bool :=
+  match c with
+  | KLw P slots R0 kv0 wok evs lists =>
+      ev_sortedb (events_of slots) && forallb (fun e => e_rev e <=? top) (events_of slots)
+  | KLf _ _ _ _ _ _ => false
+  end.
+
+(* a range result of prefix P served at revision R: strictly sorted by key, every key under P, every modification
+   revision at most R *)
+Fixpoint st_sortedb (st : store) : bool :=
+  match st with
+  | a :: (b :: _) as t => bltb (fst a) (fst b) && st_sortedb t
+  | _ => true
+  end.
+Definition range_ok (P : bytes) (R : N) (st : store) : bool :=
+  st_sortedb st && forallb (fun kv => has_prefix P (fst kv) && (snd (snd kv) <=? R)) st.
+Definition klf_wf (P : bytes) (R0 : N) (kv0 : store) (Rf : N) (kvf : store) : bool :=
+  (R0 <=? Rf) && range_ok P R0 kv0 && range_ok P Rf kvf.
+
 Definition c06_check (c : c06_case) : bool :=
   match c with
   | KLw P slots R0 kv0 wok evs lists =>
+      c06_validb c &&
       let V := versions_of slots in
       store_eqb kv0 (in_prefix P (snapshot V R0)) &&
       (negb wok || evs_eqb6 evs (filter (in_window R0 top P) (events_of slots))) &&
       forallb (fun rl => store_eqb (snd rl) (in_prefix P (snapshot V (fst rl)))) lists &&
       delete_slots_ok slots
-  | KLf _ _ _ _ _ _ => true       (* unknown outcomes are C09's subject: oracle only *)
+  | KLf P R0 kv0 evs Rf kvf => klf_wf P R0 kv0 Rf kvf
+      (* unknown outcomes: the writes as resolved are not in the case, nothing is compared with a model run; what
+         is evaluated is the well-formedness every pair of range results has (klf_wf). The hypotheses of
+         C06_fault_cases_converge are about runs (quiescence, well-formed labels) and are not decidable on a case:
+         on these cases the oracle alone decides. *)
   end.
 
 (* the property on the observations alone: the delivered events are exactly the implementation's own successful
